@@ -42,7 +42,7 @@ VARIABLES
     created,    \* createdFiles: paths this receive created, in order
     reported,   \* local names reported to the peer / shown to the user, in order
     outside,    \* paths created, opened for writing, truncated or removed that are not inside the destination
-    phase,      \* "recv" | "ok" | "failed" | "deleted"
+    phase,      \* "init" | "recv" | "ok" | "failed" | "deleted"
     round,
     exhausted   \* a fresh-name search found every candidate taken
 
@@ -175,17 +175,28 @@ Strip(f) == [q \in DOMAIN f |-> [t |-> f[q].t, c |-> f[q].c]]
 
 Init ==
     /\ cfg \in Cfgs
-    /\ \E src \in Sources, h \in HostileNames \cup {<<>>}, v \in HostileVar :
+    /\ \E src \in Sources :
          /\ (\E i \in 1..Len(src) : src[i].dir) => cfg.directory        \* "Is a directory" otherwise
+         /\ plan = Announce(src, cfg)
+    /\ pre = <<>> /\ fs = <<>>
+    /\ incoming = plan
+    /\ cur = NoCur /\ nameMap = <<>> /\ created = <<>> /\ reported = <<>> /\ outside = {}
+    /\ phase = "init" /\ round = 1 /\ exhausted = FALSE
+
+(* what is at (and around) the destination when the receive starts, and, with a hostile    *)
+(* peer, the name it puts in place of the last one                                          *)
+Populate ==
+    /\ phase = "init"
+    /\ pre' \in Pres
+    /\ fs' = WorldOf(pre')
+    /\ \E h \in HostileNames \cup {<<>>}, v \in HostileVar :
          /\ (h = <<>>) = (HostileNames = {})
          /\ (h # <<>> /\ PlainSite(cfg)) => (Len(h) = 1 /\ v.hp = 0 /\ ~v.hd)
          /\ (h = <<>>) => (v.hp = 0 /\ ~v.hd)
-         /\ plan = Subst(Announce(src, cfg), h, v)
-    /\ pre \in Pres
-    /\ fs = WorldOf(pre)
-    /\ incoming = plan
-    /\ cur = NoCur /\ nameMap = <<>> /\ created = <<>> /\ reported = <<>> /\ outside = {}
-    /\ phase = "recv" /\ round = 1 /\ exhausted = FALSE
+         /\ plan' = Subst(plan, h, v)
+    /\ incoming' = plan'
+    /\ phase' = "recv"
+    /\ UNCHANGED <<cfg, cur, nameMap, created, reported, outside, round, exhausted>>
 
 -----------------------------------------------------------------------------
 Receiving == phase = "recv"
@@ -199,17 +210,29 @@ Accept(e) ==
     /\ cur' = [st |-> "named", e |-> e]
     /\ UNCHANGED <<cfg, plan, pre, fs, nameMap, created, reported, outside, phase, round, exhausted>>
 
-Decode(site) ==
-    /\ Receiving /\ cur.st = "idle" /\ incoming # <<>> /\ Head(incoming).site = site
-    /\ incoming' = Tail(incoming)
-    /\ LET e == Head(incoming) IN
-       IF Len(e.rel) < 1 \/ (Validate = "required" /\ HostileName(e.rel))
-       THEN Refuse /\ UNCHANGED exhausted
-       ELSE Accept(e)
+Decoded(e) ==
+    IF Len(e.rel) < 1 \/ (Validate = "required" /\ HostileName(e.rel))
+    THEN Refuse /\ UNCHANGED exhausted
+    ELSE Accept(e)
+NextIs(site) == Receiving /\ cur.st = "idle" /\ incoming # <<>> /\ Head(incoming).site = site
 
-RecvPlainName == Decode("plain")     \* recvFileName, not directory mode: the payload is the name
-RecvJsonName  == Decode("json")      \* recvFileName (directory mode) / recvFileNameV3: unmarshalSourceFile
-ArchiveEntry  == Decode("archive")   \* archiveFileWriter.Write: unmarshalSourceFile of an entry header
+(* recvFileName, not directory mode: the payload of NAME is the file name itself *)
+RecvPlainName ==
+    /\ NextIs("plain")
+    /\ incoming' = Tail(incoming)
+    /\ Decoded(Head(incoming))
+
+(* recvFileName (directory mode) / recvFileNameV3: unmarshalSourceFile of the NAME payload *)
+RecvJsonName ==
+    /\ NextIs("json")
+    /\ incoming' = Tail(incoming)
+    /\ Decoded(Head(incoming))
+
+(* archiveFileWriter.Write: unmarshalSourceFile of an entry header inside the DATA stream *)
+ArchiveEntry ==
+    /\ NextIs("archive")
+    /\ incoming' = Tail(incoming)
+    /\ Decoded(Head(incoming))
 
 (* createFile / createDirOrFile, first part: the local top-level name *)
 GetNewName ==
@@ -293,7 +316,7 @@ NextRound ==
     /\ incoming' = plan /\ cur' = NoCur /\ nameMap' = <<>> /\ created' = <<>> /\ reported' = <<>>
     /\ UNCHANGED <<cfg, plan, outside, exhausted>>
 
-Next == RecvPlainName \/ RecvJsonName \/ ArchiveEntry \/ GetNewName \/ Mkdir \/ OpenCreate \/ Write
+Next == Populate \/ RecvPlainName \/ RecvJsonName \/ ArchiveEntry \/ GetNewName \/ Mkdir \/ OpenCreate \/ Write
         \/ Finish \/ DeleteCreated \/ NextRound
 
 Spec == Init /\ [][Next]_vars
@@ -307,7 +330,7 @@ UsedNames == UNION {nameMap[q] : q \in DOMAIN nameMap}
 PlanTop(q) == LET i == CHOOSE i \in 1..Len(plan) : plan[i].pid = q IN plan[i].rel[1]
 
 TypeOK ==
-    /\ phase \in {"recv", "ok", "failed", "deleted"}
+    /\ phase \in {"init", "recv", "ok", "failed", "deleted"}
     /\ cur.st \in {"idle", "named", "local", "parent", "open"}
     /\ \A p \in DOMAIN fs : fs[p].t \in {"file", "dir"}
     /\ \A p \in Range(created) : p[1] \in 0..Depth
@@ -376,7 +399,7 @@ PreSets(names, opts) ==
     ELSE {Merge(w, Opt(Head(names), o)) : w \in PreSets(Tail(names), opts), o \in opts}
 
 C07NamesQuick == <<"a", "a.0", "a.1", "d", "d.0">>
-C07NamesThorough == <<"a", "a.0", "a.1", "b", "d", "d.0", "d.1">>
+C07NamesThorough == <<"a", "a.0", "a.1", "b", "d", "d.0">>
 C07PresQuick == PreSets(C07NamesQuick, {"none", "file", "dirx"})
 C07PresThorough == PreSets(C07NamesThorough, {"none", "file", "dir", "dirx"})
 
@@ -415,7 +438,7 @@ RECURSIVE NamesUpTo(_, _)
 NamesUpTo(elems, n) == IF n = 0 THEN {<<>>} ELSE LET s == NamesUpTo(elems, n - 1) IN
                           s \cup {Append(m, e) : m \in {k \in s : Len(k) = n - 1}, e \in elems}
 ElemsQuick == {E("x"), E("canary"), E(".."), E(""), E("."), <<"..", "r">>, <<"", "abs", "r">>, E(LONG)}
-ElemsThorough == ElemsQuick \cup {E("dst"), E("sb"), E("cdir"), <<"q", "r">>, <<"q", "..", "..", "r">>, <<"", "..", "r">>}
+ElemsThorough == ElemsQuick \cup {E("dst"), <<"q", "r">>, <<"q", "..", "..", "r">>, <<"", "..", "r">>}
 C09NamesQuick == (NamesUpTo(ElemsQuick, 2) \ {<<>>})
                  \cup {<<E("x"), E(".."), e>> : e \in ElemsQuick} \cup {<<E(".."), E(".."), e>> : e \in ElemsQuick}
                  \cup {<<E("x"), E(".."), E(".."), E("canary")>>, <<E("x"), E(".."), E(".."), E("y")>>}
